@@ -11,11 +11,15 @@ def operand(g, kinds=("imm", "reg", "mem", "target")):
     if k == "reg":
         return {"k": "reg", "r": g.pick(GPR)}
     if k == "target":
-        return {"k": "target", "h": "%x" % g.int(0, 0xffffff)}
+        return {"k": "target", "h": "%x" % g.pick([g.int(0, 0xffffff), g.int(0, 0xffffff), 0xdead, 0xface, 0xadd, 0xbbd, 0xefcd, 0xab, 0xb])}
     if k == "star":
         return {"k": "star", "r": g.pick(REG64)}
     form = g.int(0, 4)
     a, b, c = "%" + g.pick(REG64), "%" + g.pick(REG64), str(g.pick([1, 2, 4, 8]))
+    if g.chance(0.12):
+        b = "%" + g.pick(["ymm1", "xmm12", "zmm31", "r10d", "r15d", "ymm0"])
+        if g.chance(0.4):
+            a = "%" + g.pick(["r10d", "r13d", "eax"])
     disp = g.disp()
     o = {"k": "mem"}
     if form == 0:
@@ -35,6 +39,12 @@ def hexbytes(g, nb):
     """raw-byte column; other disassemblers' and hand-edited listings write the digits in upper case (the line regexes accept both)"""
     fmt = "%02X" if g.chance(0.15) else "%02x"
     return "".join(fmt % g.pick([g.int(0, 255), g.int(0xa0, 0xff), 0xff, 0x0f]) for _ in range(nb))
+
+
+# comment texts that look like OTHER kinds of listing lines (file-format header, section header, elision, label):
+# an instruction line stays an instruction line whatever its comment says
+LOOKALIKE_COMMENTS = ["4020 <msg>  (elf file format string)", "file format elf64-x86-64", "Disassembly of section .text:", "...",
+                      "0000000000401000 <f>:", "see section .data"]
 
 
 def inst_line(g, addr, mnems=MNEMS):
@@ -59,7 +69,7 @@ def inst_line(g, addr, mnems=MNEMS):
         line["ops"] = []
         line["annot"] = None
     if g.chance(0.15):
-        line["comment"] = g.pick(["0x404040 <x>", "comment", "4010 <y+0x8>"])
+        line["comment"] = g.pick(["0x404040 <x>", "comment", "4010 <y+0x8>"] + LOOKALIKE_COMMENTS)
     if g.chance(0.15):
         # binutils <= 2.38 pads every mnemonic to a fixed column, operands or not: blanks at the end of the line
         line["trail"] = g.int(1, 6)
@@ -116,7 +126,7 @@ def presentation_edit(g, lines):
         if g.chance(0.4) and l["ops"]:
             l["annot"] = g.pick([None, "sym", "other+0x4", "ns::f(int, char*)+0x8", "t<a>::g()", "h # not a comment"])
         if g.chance(0.4):
-            l["comment"] = g.pick([None, "a comment", "0x1234 <z>", "401000 <k+0x10>, x", "# nested # hashes"])
+            l["comment"] = g.pick([None, "a comment", "0x1234 <z>", "401000 <k+0x10>, x", "# nested # hashes"] + LOOKALIKE_COMMENTS)
         if g.chance(0.3):
             l["trail"] = g.int(0, 7)
         if g.chance(0.15):
